@@ -7,16 +7,18 @@ PID = "C07"
 LEAN_MODULES = ["Astm.Proofs.C07"]
 THEOREMS = [
     "Astm.C07.encode_message_shape", "Astm.C07.encoded_checksum_verifies", "Astm.C07.decode_encode_message",
-    "Astm.C07.iter_encode_numbering", "Astm.C07.latin1_lawful", "Astm.C07.ascii_lawful", "Astm.C07.example_message",
+    "Astm.C07.iter_encode_numbering", "Astm.C07.latin1_lawful", "Astm.C07.ascii_lawful", "Astm.C07.utf8_lawful", "Astm.C07.cp1251_lawful",
+    "Astm.C07.shipped_encodings_lawful", "Astm.C07.example_message",
 ]
 RULE = ("record lists over canonical field trees (text, null, components, repeated components, numbers) x encodings "
         "{latin-1, utf-8, cp1251, ascii} x sequence numbers 0..64; bounded-exhaustive small trees over a 5-symbol "
         "alphabet and seeded larger ones; exploratory: non-canonical trees (bytes, strings inside repeats, None inside "
         "repeats, un-encodable text); non-trivial = has components or repeats and a non-ASCII character")
-LEVEL_NOTE = ("proof for every lawful encoding (latin-1 and ascii instances proved; utf-8 and cp1251 are tied by the "
-              "correspondence only): shape, verifying checksum, decode(encode) = id on canonical trees, numbering")
-ASSUMPTIONS = ["utf-8 / cp1251: the Lawful instance is not proved in Lean; round trip for these encodings is covered by the "
-               "correspondence streams only"]
+LEVEL_NOTE = ("proof for every lawful encoding, with the latin-1, ascii, utf-8 (core String.toUTF8/fromUTF8?) and cp1251 "
+              "(table regenerated from Python's codec) instances proved lawful: shape, verifying checksum, "
+              "decode(encode) = id on canonical trees, numbering")
+ASSUMPTIONS = ["that core Lean's UTF-8 codec and the regenerated cp1251 table behave like Python's codecs is tied by the "
+               "correspondence streams (same bytes, same errors), not proved"]
 
 
 def shape_ok(msg, seq, recs_encoded):
@@ -145,8 +147,3 @@ def run(ctx):
 
 def search(ctx, disagreements):
     return []
-
-
-def replay(payload):
-    print(payload.get("case"))
-    return 0
